@@ -467,7 +467,7 @@ fn case_rec<T: Elem>(case: u64, args: &Args, ev: &mut Ev) {
 
 fn main() {
     let args = Args::parse("C09");
-    let n = args.budget(600, 20000);
+    let n = args.budget(600, 60000);
     let ev = run_sharded(&args, n, |case, ev, _log| {
         let f32_ = case % 5 == 4;
         match (case % 3, f32_) {
